@@ -1,3 +1,579 @@
 import CircuitModel.Conc.Gauge
 namespace CM.Conc
+open CM.Conc.Gauge
+
+/-! ### generic list facts -/
+
+theorem countP_set_add {α : Type} (p : α → Bool) (l : List α) (i : Nat) (a b : α) (h : l[i]? = some a) :
+    (l.set i b).countP p + (if p a then 1 else 0) = l.countP p + (if p b then 1 else 0) := by
+  induction l generalizing i with
+  | nil => simp at h
+  | cons x xs ih =>
+    cases i with
+    | zero =>
+      simp at h
+      subst h
+      simp only [List.set_cons_zero, List.countP_cons]
+      omega
+    | succ j =>
+      simp at h
+      have := ih j h
+      simp only [List.set_cons_succ, List.countP_cons]
+      omega
+
+theorem mem_set_cases {α : Type} (l : List α) (i : Nat) (b x : α) (h : x ∈ l.set i b) : x ∈ l ∨ x = b :=
+  List.mem_or_eq_of_mem_set h
+
+theorem length_filter_not {α : Type} (p : α → Bool) (l : List α) :
+    (l.filter fun x => !p x).length + l.countP p = l.length := by
+  induction l with
+  | nil => rfl
+  | cons x xs ih =>
+    simp only [List.filter_cons, List.countP_cons, List.length_cons]
+    cases p x <;> simp <;> omega
+
+theorem countP_filter_not {α : Type} (q p : α → Bool) (l : List α) :
+    (l.filter fun x => !p x).countP q + l.countP (fun x => q x && p x) = l.countP q := by
+  induction l with
+  | nil => rfl
+  | cons x xs ih =>
+    simp only [List.filter_cons, List.countP_cons]
+    cases hp : p x <;> cases hq : q x <;> simp [hq] <;> omega
+
+theorem countP_or_split {α : Type} (q p : α → Bool) (l : List α) :
+    l.countP (fun x => q x || p x) = l.countP q + l.countP (fun x => !q x && p x) := by
+  induction l with
+  | nil => rfl
+  | cons x xs ih =>
+    simp only [List.countP_cons, ih]
+    cases hp : p x <;> cases hq : q x <;> simp <;> omega
+
+theorem countP_and_split {α : Type} (q p : α → Bool) (l : List α) :
+    l.countP p = l.countP (fun x => q x && p x) + l.countP (fun x => !q x && p x) := by
+  induction l with
+  | nil => rfl
+  | cons x xs ih =>
+    simp only [List.countP_cons, ih]
+    cases hp : p x <;> cases hq : q x <;> simp <;> omega
+
+theorem getElem?_set_self_of {α : Type} {l : List α} {i : Nat} {a : α} (b : α) (h : l[i]? = some a) :
+    (l.set i b)[i]? = some b := by
+  have hi : i < l.length := by
+    rcases Nat.lt_or_ge i l.length with h' | h'
+    · exact h'
+    · rw [List.getElem?_eq_none h'] at h; cases h
+  exact List.getElem?_set_self hi
+
+theorem region_filter_length (r : List Entry) (i : Nat) :
+    (r.filter (·.tid ≠ i)).length + r.countP (fun e => e.tid == i) = r.length := by
+  have : (fun e : Entry => decide (e.tid ≠ i)) = fun e => !(e.tid == i) := by
+    funext e; by_cases h : e.tid = i <;> simp [h]
+  rw [this]
+  exact length_filter_not _ r
+
+theorem region_filter_countP (q : Entry → Bool) (r : List Entry) (i : Nat) :
+    (r.filter (·.tid ≠ i)).countP q + r.countP (fun e => q e && e.tid == i) = r.countP q := by
+  have : (fun e : Entry => decide (e.tid ≠ i)) = fun e => !(e.tid == i) := by
+    funext e; by_cases h : e.tid = i <;> simp [h]
+  rw [this]
+  exact countP_filter_not q _ r
+
+/-! ### the ordering fact on the ghost region -/
+
+/-- the `j`-th entry (0-based, in increment order) observed at least `k + j + 1` -/
+def Good : Nat → List Entry → Prop
+  | _, [] => True
+  | k, e :: l => ((k : Int) + 1 ≤ e.obs) ∧ Good (k + 1) l
+
+theorem Good.anti {k k' : Nat} {l : List Entry} (h : Good k l) (hk : k' ≤ k) : Good k' l := by
+  induction l generalizing k k' with
+  | nil => trivial
+  | cons e l ih =>
+    obtain ⟨h1, h2⟩ := h
+    exact ⟨by omega, ih h2 (by omega)⟩
+
+theorem Good.filter {k : Nat} {l : List Entry} (p : Entry → Bool) (h : Good k l) : Good k (l.filter p) := by
+  induction l generalizing k with
+  | nil => trivial
+  | cons e l ih =>
+    obtain ⟨h1, h2⟩ := h
+    simp only [List.filter_cons]
+    split
+    · exact ⟨h1, ih h2⟩
+    · exact ih (h2.anti (by omega))
+
+theorem Good.map {k : Nat} {l : List Entry} (f : Entry → Entry) (hf : ∀ e, (f e).obs = e.obs) (h : Good k l) :
+    Good k (l.map f) := by
+  induction l generalizing k with
+  | nil => trivial
+  | cons e l ih =>
+    obtain ⟨h1, h2⟩ := h
+    exact ⟨by rw [hf]; exact h1, ih h2⟩
+
+theorem Good.append_one {k : Nat} {l : List Entry} {e : Entry} (h : Good k l)
+    (he : (k : Int) + l.length + 1 ≤ e.obs) : Good k (l ++ [e]) := by
+  induction l generalizing k with
+  | nil => exact ⟨by simpa using he, trivial⟩
+  | cons x l ih =>
+    obtain ⟨h1, h2⟩ := h
+    refine ⟨h1, ih h2 ?_⟩
+    simp only [List.length_cons] at he
+    omega
+
+theorem Good.bound {k : Nat} {l : List Entry} {m : Int} (h : Good k l)
+    (hr : ∀ e ∈ l, e.running = true → e.obs ≤ m) :
+    l.countP (·.running) = 0 ∨ (k : Int) + (l.countP (·.running) : Nat) ≤ m := by
+  induction l generalizing k with
+  | nil => left; rfl
+  | cons e l ih =>
+    obtain ⟨h1, h2⟩ := h
+    have ih' := ih h2 (fun e he => hr e (List.mem_cons_of_mem _ he))
+    have he := hr e (List.mem_cons_self ..)
+    simp only [List.countP_cons]
+    cases hrun : e.running with
+    | false =>
+      simp only [Bool.false_eq_true, if_false, Nat.add_zero]
+      rcases ih' with h0 | h0
+      · left; exact h0
+      · right; omega
+    | true =>
+      right
+      have := he hrun
+      simp only [if_true]
+      rcases ih' with h0 | h0
+      · rw [h0]; omega
+      · omega
+
+/-! ### the gauge invariant -/
+
+/-- the phases between a caller's increment and its decrement -/
+def inRegion : Local → Bool
+  | .incd _ | .running | .rejecting | .leaving => true
+  | _ => false
+
+/-- inside callers that have not yet decremented -/
+def inside : Local → Bool
+  | .running | .leaving => true
+  | _ => false
+
+/-- consistency of a region entry with the local state of its thread -/
+def Match (m : Int) (e : Entry) : Local → Prop
+  | .incd obs => e.obs = obs ∧ e.running = false
+  | .running => e.running = true ∧ (0 ≤ m → e.obs ≤ m)
+  | .rejecting => e.running = false
+  | .leaving => e.running = true ∧ (0 ≤ m → e.obs ≤ m)
+  | _ => False
+
+structure GInv (m : Int) (s : Shared) (ls : List Local) : Prop where
+  lim : s.limit = m
+  gauge : s.gauge = s.region.length
+  good : Good 0 s.region
+  mtch : ∀ e ∈ s.region, ∃ l, ls[e.tid]? = some l ∧ Match m e l
+  once : ∀ i l, ls[i]? = some l → s.region.countP (fun e => e.tid == i) = if inRegion l then 1 else 0
+  len : s.region.length = ls.countP inRegion
+  adm : s.region.countP (·.running) = ls.countP inside
+
+theorem GInv.init (m : Int) (n : Nat) : GInv m { limit := m } (List.replicate n .idle) where
+  lim := rfl
+  gauge := rfl
+  good := trivial
+  mtch := by simp
+  once := by
+    intro i l h
+    have : l = .idle := by
+      have := List.mem_of_getElem? h
+      exact List.eq_of_mem_replicate this
+    subst this
+    rfl
+  len := by
+    simp [List.countP_replicate, inRegion]
+  adm := by
+    simp [List.countP_replicate, inside]
+
+/-- every entry of thread `i` matches the local state of thread `i` -/
+theorem GInv.mtch_at {m : Int} {s : Shared} {ls : List Local} (h : GInv m s ls) {i : Nat} {l0 : Local}
+    (hi : ls[i]? = some l0) {e : Entry} (he : e ∈ s.region) (ht : e.tid = i) : Match m e l0 := by
+  obtain ⟨l, hl, hm⟩ := h.mtch e he
+  rw [ht, hi] at hl
+  cases hl
+  exact hm
+
+/-- the number of inside entries of thread `i` -/
+theorem GInv.adm_at {m : Int} {s : Shared} {ls : List Local} (h : GInv m s ls) {i : Nat} {l0 : Local}
+    (hi : ls[i]? = some l0) :
+    s.region.countP (fun e => e.running && e.tid == i) = if inside l0 then 1 else 0 := by
+  have hm := fun e he ht => h.mtch_at hi (e := e) he ht
+  have ho := h.once i l0 hi
+  cases l0 with
+  | idle | finished b =>
+    simp only [inside, Bool.false_eq_true, if_false]
+    rw [List.countP_eq_zero]
+    intro e he
+    by_cases ht : e.tid = i
+    · exact (hm e he ht).elim
+    · simp [ht]
+  | incd obs =>
+    simp only [inside, Bool.false_eq_true, if_false]
+    rw [List.countP_eq_zero]
+    intro e he
+    by_cases ht : e.tid = i
+    · have := (hm e he ht).2
+      simp [this]
+    · simp [ht]
+  | rejecting =>
+    simp only [inside, Bool.false_eq_true, if_false]
+    rw [List.countP_eq_zero]
+    intro e he
+    by_cases ht : e.tid = i
+    · have : e.running = false := hm e he ht
+      simp [this]
+    · simp [ht]
+  | running =>
+    simp only [inside, if_true]
+    simp only [inRegion, if_true] at ho
+    rw [← ho]
+    apply List.countP_congr
+    intro e he
+    by_cases ht : e.tid = i
+    · have := (hm e he ht).1
+      simp [this]
+    · simp [ht]
+  | leaving =>
+    simp only [inside, if_true]
+    simp only [inRegion, if_true] at ho
+    rw [← ho]
+    apply List.countP_congr
+    intro e he
+    by_cases ht : e.tid = i
+    · have := (hm e he ht).1
+      simp [this]
+    · simp [ht]
+
+/-- a purely local transition that keeps the phase class (incd → rejecting, running → leaving) -/
+theorem GInv.local_step {m : Int} {s : Shared} {ls : List Local} (h : GInv m s ls) {i : Nat} {l0 l1 : Local}
+    (hi : ls[i]? = some l0) (hr : inRegion l1 = inRegion l0) (ha : inside l1 = inside l0)
+    (hm : ∀ e, Match m e l0 → Match m e l1) : GInv m s (ls.set i l1) where
+  lim := h.lim
+  gauge := h.gauge
+  good := h.good
+  mtch := by
+    intro e he
+    by_cases ht : e.tid = i
+    · refine ⟨l1, ?_, hm e (h.mtch_at hi he ht)⟩
+      rw [ht]; exact getElem?_set_self_of l1 hi
+    · obtain ⟨l, hl, hml⟩ := h.mtch e he
+      refine ⟨l, ?_, hml⟩
+      rw [List.getElem?_set_ne (fun h' => ht h'.symm)]; exact hl
+  once := by
+    intro j l hj
+    by_cases hji : j = i
+    · subst hji
+      rw [getElem?_set_self_of l1 hi] at hj
+      cases hj
+      rw [hr]; exact h.once j l0 hi
+    · rw [List.getElem?_set_ne (fun h' => hji h'.symm)] at hj
+      exact h.once j l hj
+  len := by
+    have := countP_set_add inRegion ls i l0 l1 hi
+    rw [hr] at this
+    rw [h.len]; omega
+  adm := by
+    have := countP_set_add inside ls i l0 l1 hi
+    rw [ha] at this
+    rw [h.adm]; omega
+
+/-- idle → incd: the increment -/
+theorem GInv.enter_step {m : Int} {s : Shared} {ls : List Local} (h : GInv m s ls) {i : Nat}
+    (hi : ls[i]? = some .idle) :
+    GInv m { s with gauge := s.gauge + 1,
+                    region := s.region ++ [{ tid := i, obs := s.gauge + 1, running := false }] }
+      (ls.set i (.incd (s.gauge + 1))) where
+  lim := h.lim
+  gauge := by
+    simp only [List.length_append, List.length_singleton]
+    rw [h.gauge]; omega
+  good := by
+    apply h.good.append_one
+    simp only
+    rw [h.gauge]; omega
+  mtch := by
+    intro e he
+    simp only [List.mem_append, List.mem_singleton] at he
+    rcases he with he | he
+    · have ht : e.tid ≠ i := fun ht => (h.mtch_at hi he ht).elim
+      obtain ⟨l, hl, hml⟩ := h.mtch e he
+      refine ⟨l, ?_, hml⟩
+      rw [List.getElem?_set_ne (fun h' => ht h'.symm)]; exact hl
+    · subst he
+      exact ⟨_, getElem?_set_self_of _ hi, rfl, rfl⟩
+  once := by
+    intro j l hj
+    simp only [List.countP_append, List.countP_singleton]
+    by_cases hji : j = i
+    · subst hji
+      rw [getElem?_set_self_of _ hi] at hj
+      cases hj
+      have := h.once j .idle hi
+      simp [inRegion] at this ⊢
+      exact this
+    · rw [List.getElem?_set_ne (fun h' => hji h'.symm)] at hj
+      have : ((i == j) = true) = False := by simp; exact fun h' => hji h'.symm
+      simp only [this, if_false, Nat.add_zero]
+      exact h.once j l hj
+  len := by
+    have := countP_set_add inRegion ls i .idle (.incd (s.gauge + 1)) hi
+    simp [inRegion] at this
+    simp only [List.length_append, List.length_singleton]
+    rw [h.len]; omega
+  adm := by
+    have := countP_set_add inside ls i .idle (.incd (s.gauge + 1)) hi
+    simp [inside] at this
+    simp only [List.countP_append, List.countP_singleton]
+    rw [h.adm]; simp [this]
+
+/-- incd → running: granting -/
+theorem GInv.grant_step {m : Int} {s : Shared} {ls : List Local} (h : GInv m s ls) {i : Nat} {obs : Int}
+    (hi : ls[i]? = some (.incd obs)) (hlim : ¬ (s.limit ≥ 0 ∧ obs > s.limit)) :
+    GInv m { s with region := s.region.map fun e => if e.tid = i then { e with running := true } else e }
+      (ls.set i .running) where
+  lim := h.lim
+  gauge := by
+    simp only [List.length_map]; exact h.gauge
+  good := by
+    apply h.good.map
+    intro e; split <;> rfl
+  mtch := by
+    intro e' he'
+    simp only [List.mem_map] at he'
+    obtain ⟨e, he, rfl⟩ := he'
+    by_cases ht : e.tid = i
+    · simp only [ht, if_true]
+      refine ⟨_, getElem?_set_self_of _ hi, rfl, ?_⟩
+      have := (h.mtch_at hi he ht).1
+      have hl := h.lim
+      simp only
+      intro hm0
+      omega
+    · simp only [ht, if_false]
+      obtain ⟨l, hl, hml⟩ := h.mtch e he
+      refine ⟨l, ?_, hml⟩
+      rw [List.getElem?_set_ne (fun h' => ht h'.symm)]; exact hl
+  once := by
+    intro j l hj
+    have hc : (s.region.map fun e => if e.tid = i then { e with running := true } else e).countP
+        (fun e => e.tid == j) = s.region.countP (fun e => e.tid == j) := by
+      rw [List.countP_map]
+      apply List.countP_congr
+      intro e _
+      simp only [Function.comp]
+      split <;> rfl
+    simp only
+    rw [hc]
+    by_cases hji : j = i
+    · subst hji
+      rw [getElem?_set_self_of _ hi] at hj
+      cases hj
+      have := h.once j _ hi
+      simpa [inRegion] using this
+    · rw [List.getElem?_set_ne (fun h' => hji h'.symm)] at hj
+      exact h.once j l hj
+  len := by
+    have := countP_set_add inRegion ls i _ .running hi
+    simp [inRegion] at this
+    simp only [List.length_map]
+    rw [h.len]; omega
+  adm := by
+    have h1 := countP_set_add inside ls i _ .running hi
+    simp [inside] at h1
+    have h2 := h.adm_at hi
+    have hf : inside (.incd obs) = false := rfl
+    rw [hf] at h2
+    simp only [Bool.false_eq_true, if_false] at h2
+    have h3 := h.once i _ hi
+    have hf' : inRegion (.incd obs) = true := rfl
+    rw [hf'] at h3
+    simp only [if_true] at h3
+    have h4 := countP_and_split (fun e : Entry => e.running) (fun e => e.tid == i) s.region
+    have h5 := countP_or_split (fun e : Entry => e.running) (fun e => e.tid == i) s.region
+    have hc : (s.region.map fun e => if e.tid = i then { e with running := true } else e).countP
+        (fun e => e.running) = s.region.countP (fun e => e.running || e.tid == i) := by
+      rw [List.countP_map]
+      apply List.countP_congr
+      intro e _
+      simp only [Function.comp]
+      by_cases ht : e.tid = i <;> simp [ht]
+    simp only
+    rw [hc, h5]
+    have := h.adm
+    omega
+
+/-- rejecting / leaving → finished: the decrement -/
+theorem GInv.exit_step {m : Int} {s : Shared} {ls : List Local} (h : GInv m s ls) {i : Nat} {l0 : Local} (b : Bool)
+    (hi : ls[i]? = some l0) (hr : inRegion l0 = true) :
+    GInv m { s with gauge := s.gauge - 1, region := s.region.filter (·.tid ≠ i) } (ls.set i (.finished b)) where
+  lim := h.lim
+  gauge := by
+    have h1 := region_filter_length s.region i
+    have h2 := h.once i l0 hi
+    simp only [hr, if_true] at h2
+    simp only
+    rw [h.gauge]; omega
+  good := h.good.filter _
+  mtch := by
+    intro e he
+    simp only [List.mem_filter, decide_eq_true_eq] at he
+    obtain ⟨he, ht⟩ := he
+    obtain ⟨l, hl, hml⟩ := h.mtch e he
+    refine ⟨l, ?_, hml⟩
+    rw [List.getElem?_set_ne (fun h' => ht h'.symm)]; exact hl
+  once := by
+    intro j l hj
+    have h1 := region_filter_countP (fun e => e.tid == j) s.region i
+    simp only
+    by_cases hji : j = i
+    · subst hji
+      rw [getElem?_set_self_of _ hi] at hj
+      cases hj
+      simp only [Bool.and_self] at h1
+      simp only [inRegion, Bool.false_eq_true, if_false]
+      omega
+    · rw [List.getElem?_set_ne (fun h' => hji h'.symm)] at hj
+      have h2 : s.region.countP (fun e => e.tid == j && e.tid == i) = 0 := by
+        rw [List.countP_eq_zero]
+        intro e _
+        by_cases ht : e.tid = i
+        · simp [ht]; exact fun h' => hji h'.symm
+        · simp [ht]
+      rw [← h.once j l hj]; omega
+  len := by
+    have h0 := countP_set_add inRegion ls i l0 (.finished b) hi
+    have hf : inRegion (.finished b) = false := rfl
+    rw [hr, hf] at h0
+    simp only [if_true, Bool.false_eq_true, if_false] at h0
+    have h1 := region_filter_length s.region i
+    have h2 := h.once i l0 hi
+    simp only [hr, if_true] at h2
+    have := h.len
+    simp only
+    omega
+  adm := by
+    have h0 := countP_set_add inside ls i l0 (.finished b) hi
+    have hf : inside (.finished b) = false := rfl
+    rw [hf] at h0
+    simp only [Bool.false_eq_true, if_false, Nat.add_zero] at h0
+    have h1 := region_filter_countP (fun e => e.running) s.region i
+    have h2 := h.adm_at hi
+    have := h.adm
+    simp only
+    omega
+
+/-- the invariant is preserved by every enabled step of every thread -/
+theorem GInv.step {m : Int} {s : Shared} {ls : List Local} (h : GInv m s ls) {i : Nat} {l l' : Local} {s' : Shared}
+    (hi : ls[i]? = some l) (hs : Gauge.step i s l = some (s', l')) : GInv m s' (ls.set i l') := by
+  cases l with
+  | idle =>
+    simp only [Gauge.step, Option.some.injEq, Prod.mk.injEq] at hs
+    obtain ⟨rfl, rfl⟩ := hs
+    exact h.enter_step hi
+  | incd obs =>
+    simp only [Gauge.step] at hs
+    split at hs
+    · simp only [Option.some.injEq, Prod.mk.injEq] at hs
+      obtain ⟨rfl, rfl⟩ := hs
+      exact h.local_step hi rfl rfl (fun e he => he.2)
+    · rename_i hlim
+      simp only [Option.some.injEq, Prod.mk.injEq] at hs
+      obtain ⟨rfl, rfl⟩ := hs
+      exact h.grant_step hi hlim
+  | running =>
+    simp only [Gauge.step, Option.some.injEq, Prod.mk.injEq] at hs
+    obtain ⟨rfl, rfl⟩ := hs
+    exact h.local_step hi rfl rfl (fun e he => he)
+  | rejecting =>
+    simp only [Gauge.step, Option.some.injEq, Prod.mk.injEq] at hs
+    obtain ⟨rfl, rfl⟩ := hs
+    exact h.exit_step false hi rfl
+  | leaving =>
+    simp only [Gauge.step, Option.some.injEq, Prod.mk.injEq] at hs
+    obtain ⟨rfl, rfl⟩ := hs
+    exact h.exit_step true hi rfl
+  | finished b =>
+    simp [Gauge.step] at hs
+
+/-- what the invariant says about the number of callers inside the protected function -/
+theorem GInv.inFlight_le {m : Int} {s : Shared} {ls : List Local} (h : GInv m s ls) (hm : 0 ≤ m) :
+    ((ls.filter (· == .running)).length : Int) ≤ m := by
+  have h1 : (ls.filter (· == .running)).length ≤ ls.countP inside := by
+    rw [← List.countP_eq_length_filter]
+    apply List.countP_mono_left
+    intro l _ hl
+    have : l = .running := by simpa using hl
+    subst this; rfl
+  have h2 : ∀ e ∈ s.region, e.running = true → e.obs ≤ m := by
+    intro e he hrun
+    obtain ⟨l, _, hml⟩ := h.mtch e he
+    cases l with
+    | idle | finished b => exact hml.elim
+    | incd obs => have := hml.2; simp [hrun] at this
+    | rejecting => have : e.running = false := hml; simp [hrun] at this
+    | running => exact hml.2 hm
+    | leaving => exact hml.2 hm
+  have h3 := h.good.bound h2
+  have h4 := h.adm
+  omega
+
+theorem allFinished_countP {ls : List Local}
+    (hq : (ls.all fun l => match l with | .finished _ => true | _ => false) = true) : ls.countP inRegion = 0 := by
+  rw [List.countP_eq_zero]
+  intro l hl
+  have := List.all_eq_true.mp hq l hl
+  cases l <;> simp_all [inRegion]
+
+/-! ### negative limit: nobody is refused -/
+
+def NoReject (m : Int) (s : Shared) (ls : List Local) : Prop :=
+  s.limit = m ∧ ∀ l ∈ ls, l ≠ .rejecting ∧ l ≠ .finished false
+
+theorem NoReject.init (m : Int) (n : Nat) : NoReject m { limit := m } (List.replicate n .idle) := by
+  refine ⟨rfl, ?_⟩
+  intro l hl
+  have := List.eq_of_mem_replicate hl
+  subst this
+  exact ⟨by simp, by simp⟩
+
+theorem NoReject.step {m : Int} (hm : m < 0) {s : Shared} {ls : List Local} (h : NoReject m s ls) {i : Nat}
+    {l l' : Local} {s' : Shared} (hi : ls[i]? = some l) (hs : Gauge.step i s l = some (s', l')) :
+    NoReject m s' (ls.set i l') := by
+  obtain ⟨hl, hall⟩ := h
+  have hmem : l ∈ ls := List.mem_of_getElem? hi
+  have key : s'.limit = m ∧ l' ≠ .rejecting ∧ l' ≠ .finished false := by
+    cases l with
+    | idle =>
+      simp only [Gauge.step, Option.some.injEq, Prod.mk.injEq] at hs
+      obtain ⟨rfl, rfl⟩ := hs
+      exact ⟨hl, by simp, by simp⟩
+    | incd obs =>
+      simp only [Gauge.step] at hs
+      split at hs
+      · rename_i hlim
+        omega
+      · simp only [Option.some.injEq, Prod.mk.injEq] at hs
+        obtain ⟨rfl, rfl⟩ := hs
+        exact ⟨hl, by simp, by simp⟩
+    | running =>
+      simp only [Gauge.step, Option.some.injEq, Prod.mk.injEq] at hs
+      obtain ⟨rfl, rfl⟩ := hs
+      exact ⟨hl, by simp, by simp⟩
+    | rejecting => exact ((hall _ hmem).1 rfl).elim
+    | leaving =>
+      simp only [Gauge.step, Option.some.injEq, Prod.mk.injEq] at hs
+      obtain ⟨rfl, rfl⟩ := hs
+      exact ⟨hl, by simp, by simp⟩
+    | finished b => simp [Gauge.step] at hs
+  refine ⟨key.1, ?_⟩
+  intro x hx
+  rcases List.mem_or_eq_of_mem_set hx with hx | hx
+  · exact hall x hx
+  · subst hx; exact key.2
+
 end CM.Conc
